@@ -300,6 +300,29 @@ def validate_witnesses(sx, ir, label="", timeout_s=120):
     return ok, fails
 
 
+def genfail_probes(sx, ir, accept_fn=None, timeout_s=60):
+    """Completeness probe: an honest input the real witness generators could not complete. The solver
+    decides whether the constraint system has ANY witness for exactly these inputs.
+    Returns list of (label, named_inputs, verdict) with verdict in {'UNSAT','SAT','UNKNOWN'}."""
+    out = []
+    for w in ir.get("witnesses", []):
+        aux = w.get("aux") or {}
+        if "genfail" not in aux:
+            continue
+        named = aux.get("named", {})
+        if accept_fn is not None and not accept_fn(named):
+            continue
+        s = z3.Solver()
+        s.set("timeout", int(timeout_s * 1000))
+        s.add(sx.asserts)
+        for n, vals in named.items():
+            for c, v in zip(ir["named"][n], vals):
+                s.add(sx.terms[c].as_int() == v % P)
+        r = s.check()
+        out.append((w["label"], named, "UNSAT" if r == z3.unsat else ("SAT" if r == z3.sat else "UNKNOWN")))
+    return out
+
+
 def model_inputs(sx, ir, model, names):
     """Concrete values of named input classes in a z3 model."""
     out = {}
